@@ -8,9 +8,13 @@ from . import gen, plans
 COMPS_ALL = ["leaf", "leaf_n", "leaf_p", "direct", "direct_n", "ref", "ref_p", "anyref", "anyref_n", "anyref_p", "ts", "ts_ref",
              "aligned", "aligned_n", "tracked", "tracked_n", "tracked_p", "seg2", "seg3", "seg_n", "fb", "fb_n", "fb_nest",
              "fb_nest2", "fb_aligned", "fb_tracked", "tracked_fb", "aligned_tracked", "ts_fb", "anyref_seg", "ref_aligned",
-             "seg_fb", "mra", "fb_pool", "fb_apool", "fb_coll"]
+             "seg_fb", "mra", "fb_pool", "fb_apool", "fb_coll",
+             # adapters that are stateful only through one of their parts (a stateful tracker / default allocator next to
+             # a stateless one), directly and behind a reference: a reference that takes them for stateless would talk
+             # to a default constructed object instead of the one it was given
+             "tracked_sl", "ref_tracked_sl", "fb_sl", "ref_fb_sl", "ref_seg_sl"]
 COMPS_FB = ["fb", "fb_n", "fb_nest", "fb_nest2", "fb_aligned", "fb_tracked", "tracked_fb", "ts_fb", "seg_fb", "fb_pool",
-            "fb_apool", "fb_coll"]
+            "fb_apool", "fb_coll", "fb_sl", "ref_fb_sl"]
 # compositions that exhibit a listed open finding by construction
 COMPS_KNOWN = ["mra_shrinking"]
 
@@ -18,7 +22,7 @@ SIZES = [1, 2, 7, 8, 12, 16, 17, 24, 31, 32, 33, 40, 64, 65, 100, 255, 256, 1000
 ALIGNS = [1, 1, 2, 4, 8, 8, 16, 32, 64]
 
 
-SMART_OK = {"leaf", "leaf_n", "direct", "ref", "ts", "aligned", "tracked", "seg2", "fb", "mra"}
+SMART_OK = {"leaf", "leaf_n", "direct", "ref", "ts", "aligned", "tracked", "seg2", "fb", "mra", "tracked_sl", "fb_sl"}
 
 
 # compositions with a differently configured spare object for the command xm (move assignment + move construction)
